@@ -4,6 +4,8 @@ package pilosa_test
 // C11/C17/C20 cluster legs.
 
 import (
+	"os"
+	"strconv"
 	"testing"
 	"time"
 
@@ -40,4 +42,12 @@ func vrcStart(t *testing.T, n, replicas int) test.Cluster {
 		}
 		time.Sleep(5 * time.Millisecond)
 	}
+}
+
+// vrcNodes is the cluster size requested through VERIF_ESRV_NODES (default 1).
+func vrcNodes() int {
+	if n, err := strconv.Atoi(os.Getenv("VERIF_ESRV_NODES")); err == nil && n > 1 {
+		return n
+	}
+	return 1
 }
